@@ -598,6 +598,28 @@ void Exec::step(const Step &s) {
       simk::Rng r((uint64_t)s.N(7));
       for (size_t i = m.fields.size(); i > 1; i--) std::swap(m.fields[i - 1], m.fields[r.below(i)]);
     }
+    if (s.N(13, 0) > 0) {
+      // n[13]: a header field code that appears TWICE (container-instance, signature, sender, destination, ...):
+      // "a header must contain ... at most one" - the message is invalid, its sender is disconnected, and nothing of it
+      // (in particular not the second copy of an injected field) reaches anybody
+      uint8_t code = (uint8_t)s.N(13);
+      wire::Value v = code == wire::F_CONTAINER_INSTANCE ? wire::Value::path("/org/freedesktop/DBus/Containers1/c" + std::to_string(40 + s.N(13)))
+                      : code == wire::F_SIGNATURE ? wire::Value::sigval("s") : wire::Value::string(c.unique.empty() ? ":1.99" : c.unique);
+      bool present = false;
+      for (auto &f : m.fields) if (f.code == code) { v = f.val; present = true; break; }
+      if (!present) m.fields.push_back({code, v});
+      // the second copy: adjacent or at the other end of the field array
+      if (s.N(13) & 0x100) m.fields.insert(m.fields.begin(), wire::Field{code, v}); else m.fields.push_back({code, v});
+      if (c.closed || md.conns[(size_t)ci].expect_closed) return;
+      c.next_serial = m.serial + 1;
+      w.queue_raw(ci, wire::marshal(m));
+      w.deliver(ci, -1);
+      md.conns[(size_t)ci].expect_closed = true;
+      md.conns[(size_t)ci].close_prop = "C03";
+      counters["probe:duplicate_header_field_sent"]++;
+      note("c" + std::to_string(ci) + ":send-duplicate-field(" + std::to_string(code) + ")");
+      return;
+    }
     long nf = s.N(9, 0), fd_delta = s.N(10, 0), fd_at = s.N(11, 0);
     std::vector<int> fds;
     if (nf > 0 || fd_delta != 0) {
@@ -747,6 +769,7 @@ void Exec::resolve_choices() {
       counters["choice:" + ch.id]++;
       tr.ev("choice rules c%d actual=%d have=%d doomed=%d", ch.conn, actual, have, doomed);
       if (actual < 0) continue;
+      if (md.conns[(size_t)ch.conn].unchecked) continue;   // its rule list is not predicted (it added a rule text the documents leave open)
       if (actual == have - doomed) { md.resolve_rule_choice(ch.conn, ch.rule_idx, true); counters["choice:" + ch.id + ":dropped"]++; }
       else if (actual == have) counters["choice:" + ch.id + ":kept"]++;
       else fail("oracle:C07:rule-count", "c%d holds %d match rules in the bus, the model has %d (of which %d name the unique name that just vanished)", ch.conn, actual, have, doomed);
